@@ -9,7 +9,8 @@ dumped raw in mode `tslots`) — and composes: the pass is defined, the table af
 `pairTopo_of_mutual` applies to the topology the models' own position update reads.
 
 This module only re-checks the proofs (there is no new executable model: the tie of the search model is C14's):
-  THEOREMS_SEARCH, GEN_SEARCH, prove_search()
+  THEOREMS_SEARCH, GEN_SEARCH, prove_search()            Properties/C03Search.lean
+  THEOREMS_SEARCH_INV, prove_search_invariants()           Properties/C03SearchInvariants.lean (needs Properties/C14TissueInvariants.lean)
 """
 import vlib
 
@@ -17,10 +18,10 @@ PROOF_PID = "C03Search"
 NAMESPACE = "Simu.C03"
 THEOREMS_SEARCH = [
     # Model/Tissue.lean (all slots in use); any scalar type
-    "search_searchOK", "search_rangeOK", "search_pass_defined", "contactRun_defined", "contactRun_table",
+    "search_searchOK", "searchOK_any_schedule", "search_couples_epithelial", "search_rangeOK", "search_pass_defined", "contactRun_defined", "contactRun_table",
     "contactRun_pairs_coincide", "beforeIntegration_pairs_coincide", "beforeIntegration_defined",
     # Model/TissueR.lean (released node / face slots); any scalar type
-    "facesLive_of_cellMeshOk", "searchR_searchOK", "searchR_rangeOK", "searchR_keeps_released", "searchR_pass_defined",
+    "facesLive_of_cellMeshOk", "searchR_searchOK", "searchR_couples_epithelial", "searchR_rangeOK", "searchR_keeps_released", "searchR_pass_defined",
     "contactRunR_defined", "contactRunR_pairs_coincide", "contactRunR_coupOk", "beforeIntegrationR_pairs_coincide",
     "beforeIntegrationR_defined_coupOk", "contactRunR_keeps_staleFree", "iterationR_freeClean",
     # ordered field: NoStale, Mutual, the pair theorems of C03 on the topology the models integrate
@@ -30,6 +31,13 @@ THEOREMS_SEARCH = [
     "facesInRange_iteration", "tissueRun_mutual", "tissueRun_defined",
     # non-vacuity (kernel evaluation over Q)
     "sQ2_facesInRange", "sQ2_search_couples", "rel_facesLive", "rel_staleFree", "rel_couples", "rel_stale_not_mutual",
+]
+# Properties/C03SearchInvariants.lean: the mesh hypotheses of the TissueR theorems above discharged from the invariant `AllOk` of
+# Properties/C14TissueInvariants.lean (separate module: it needs that package)
+PROOF_PID_INV = "C03SearchInvariants"
+THEOREMS_SEARCH_INV = [
+    "facesLive_of_allOk", "queueExact_of_allOk", "staleFree_iff_freeClean", "tissueIterationR_mutual_of_invariants",
+    "tissueRunR_freeClean", "tissueIterationR_defined_of_invariants",
 ]
 # generated files in the import closure of Properties/C03Search.lean (the search model calls Gen.rule1, the gates, the box / grid
 # arithmetic; the rest of the tissue models comes with the import)
@@ -47,9 +55,17 @@ def prove_search(translate=True):
     return r
 
 
+def prove_search_invariants():
+    """axiom audit of THEOREMS_SEARCH_INV (call after prove_search(): the generated files are the same)"""
+    return vlib.prove(PROOF_PID_INV, THEOREMS_SEARCH_INV, NAMESPACE)
+
+
 if __name__ == "__main__":
     import json
     p = prove_search()
+    q = prove_search_invariants()
+    print(json.dumps({k: q[k] for k in ("ok", "obligations", "discharged", "failures", "wall")}, indent=1))
+    p["axioms"].update(q["axioms"])
     print(json.dumps({k: p[k] for k in ("ok", "obligations", "discharged", "failures", "wall")}, indent=1))
     for t, ax in sorted(p["axioms"].items()):
         print(t, ax)
